@@ -12,10 +12,13 @@ open Ysgo Generated
 
 def ops (m : String) : List (String × String) := ((storerOps.find? (·.1 == m)).map (·.2)).getD []
 
+/-- the map of a given Go type: maps are recognised by what they hold, not by what they are called -/
+def mapOfType (t : String) : String := ((storerMapTypes.find? (·.2 == t)).map (·.1)).getD ""
+
 def own : String → String
-  | "SetNumberValue" => "numbers"
-  | "SetBooleanValue" => "booleans"
-  | "SetStringValue" => "strings"
+  | "SetNumberValue" => mapOfType "map[string]float64"
+  | "SetBooleanValue" => mapOfType "map[string]bool"
+  | "SetStringValue" => mapOfType "map[string]string"
   | _ => ""
 
 def setters : List String := ["SetNumberValue", "SetBooleanValue", "SetStringValue"]
@@ -30,7 +33,7 @@ theorem setters_keep_one_type :
 
 theorem clear_resets_every_map :
     storerMaps.all (fun f => (ops "Clear").contains ("reset", f) || (ops "Clear").contains ("clear", f)) = true ∧
-    storerMaps = ["numbers", "booleans", "strings"] := by decide
+    storerMaps.length = 3 ∧ setters.all (fun m => own m != "") = true := by decide
 
 /-- no other method changes the maps -/
 theorem only_setters_and_clear_mutate : (storerOps.map (·.1)).all (fun m => setters.contains m || m == "Clear") = true := by decide
